@@ -34,6 +34,10 @@
 (*     the deferred close runs after Done, i.e. possibly after the teardown went on to unmap (see NOTES, not explored).   *)
 (*  D4 Stream.Close by the user is one step (no interleaving inside clean()); a user never closes a stream whose          *)
 (*     callback is running (that class belongs to C10/C20).                                                               *)
+(*  D6 the user closes a stream locally only when no data for it is in flight (a server end re-creates the stream when    *)
+(*     data arrives for an id it no longer knows: class server-recreates-closed-stream of C10); D7 when data and the      *)
+(*     peer's close of the same stream are handled in one drain the callback goroutine (started through gopool) finds    *)
+(*     the stream half-closed and never calls OnData (C20's finding); the opposite order is possible in the code.        *)
 (*  D5 the buffer-manager reference is per end ("held"/"released"); whether the mapping goes away depends on the other    *)
 (*     holders in the same process and is decided by the census of the harness.                                           *)
 (* Constant Atomic = TRUE restricts the scheduler to run every procedure to completion (or until it blocks): these are    *)
@@ -255,7 +259,7 @@ Deliver(e, S) ==   \* S = record of the per-stream variables, returns the update
     IF e[1] = "d"
       THEN IF S.st[s] \in {"open", "half"} /\ S.inT[s]
              THEN IF s \in CbStreams
-                    THEN [S EXCEPT !.unread[s] = @ + 1, !.busy[s] = @ \/ S.st[s] = "open"]
+                    THEN [S EXCEPT !.unread[s] = @ + 1, !.start[s] = TRUE]
                     ELSE IF S.rd[s] = "parked" THEN [S EXCEPT !.rd[s] = "data"] ELSE [S EXCEPT !.unread[s] = @ + 1]
              ELSE S
       ELSE IF S.st[s] = "open" /\ S.inT[s]
@@ -277,9 +281,12 @@ Events == /\ Start /\ pc["loop"] = "idle" /\ conn # "closed" /\ (hup \/ inbox # 
                          THEN UNCHANGED <<st, notified, cbR, rd, unread, cbBusy>>
                          ELSE LET S == DeliverAll(inbox, [st |-> st, inT |-> [s \in Streams |-> inTable[s] /\ ~tableNil],
                                                           notified |-> notified, cbR |-> cbR, rd |-> rd,
-                                                          unread |-> unread, busy |-> cbBusy])
+                                                          unread |-> unread, start |-> [s \in Streams |-> FALSE]])
                               IN /\ st' = S.st /\ notified' = S.notified /\ cbR' = S.cbR /\ rd' = S.rd
-                                 /\ unread' = S.unread /\ cbBusy' = S.busy
+                                 /\ unread' = S.unread
+                                 \* the callback goroutine is started through gopool and looks at the state when it runs:
+                                 \* a close element handled later in the same drain wins (the data is then never offered)
+                                 /\ cbBusy' = [s \in Streams |-> cbBusy[s] \/ (S.start[s] /\ S.st[s] = "open")]
           /\ UNCHANGED <<shutdown, serr, shutCh, lambdas, batch, conn, link, flag, inTable, tableNil, waitExit, cbL,
                          peerClosed, fl, acc, bm, qm, sendLoop, snap, cur, ws, tdRuns, nsent, npc, lastOpen, lastSend,
                          sendLate, openAtDeath, kf, nops>>
@@ -394,6 +401,7 @@ SendPut == /\ Step("w") /\ pc["w"] = "s_put"
                           tdRuns, nsent, npc, lastOpen, sendLate, openAtDeath, nops>>
 
 StreamClose(s) == /\ Start /\ Op /\ pc["w"] = "idle" /\ st[s] # "closed" /\ ~cbBusy[s]
+                  /\ ~\E i \in 1..Len(inbox) : inbox[i] = <<"d", s>>
                   /\ ws' = s
                   /\ waitExit' = [waitExit EXCEPT ![s] = @ \/ s \in CbStreams]
                   /\ CloseStreamVars(s, shutdown = 1)
